@@ -15,10 +15,14 @@
 package crdt
 
 import (
+	"errors"
 	"time"
 
 	"github.com/kelindar/binary"
 )
+
+// errInvalidValue is returned when a decoded value is too short to hold the add and remove times.
+var errInvalidValue = errors.New("crdt: invalid value")
 
 // Map represents a contract for a CRDT map.
 type Map interface {
